@@ -899,6 +899,8 @@ class Model(Object):
         Groups with identifiers identical to a group already in the model are
         ignored.
 
+        The change is reverted upon exit when using the model as a context.
+
         If any group contains members that are not in the model, these members
         are added to the model as well. Only metabolites, reactions, and genes
         can have groups.
@@ -936,9 +938,12 @@ class Model(Object):
             group_list = [group_list]
 
         pruned = DictList(filter(existing_filter, group_list))
+        context = get_context(self)
 
         for group in pruned:
             group._model = self
+            if context:
+                context(partial(setattr, group, "_model", None))
             for member in group.members:
                 # If the member is not associated with the model, add it
                 if isinstance(member, Metabolite) and member not in self.metabolites:
@@ -951,6 +956,10 @@ class Model(Object):
                 #         self.add_genes([member])
 
             self.groups += [group]
+            if context:
+                # The members that join the model with the group leave it again
+                # with the context, so the group has to leave as well.
+                context(partial(self.groups.__isub__, [group]))
 
     def remove_groups(self, group_list: Union[str, Group, List[Group]]) -> None:
         """Remove groups from the model.
@@ -958,6 +967,8 @@ class Model(Object):
         Members of each group are not removed
         from the model (i.e. metabolites, reactions, and genes in the group
         stay in the model after any groups containing them are removed).
+
+        The change is reverted upon exit when using the model as a context.
 
         Parameters
         ----------
@@ -970,6 +981,8 @@ class Model(Object):
             warn("need to pass in a list")
             group_list = [group_list]
 
+        context = get_context(self)
+
         for group in group_list:
             # make sure the group is in the model
             group_id = group if isinstance(group, str) else group.id
@@ -980,6 +993,9 @@ class Model(Object):
                     group = self.groups.get_by_id(group_id)
                 self.groups.remove(group)
                 group._model = None
+                if context:
+                    context(partial(self.groups.add, group))
+                    context(partial(setattr, group, "_model", self))
 
     def get_associated_groups(
         self, element: Union[Reaction, Gene, Metabolite]
